@@ -4241,9 +4241,21 @@ coap_dispatch(coap_context_t *context, coap_session_t *session,
   else
 #endif /* !COAP_DISABLE_TCP */
 #if COAP_SERVER_SUPPORT
-    if (COAP_PDU_IS_REQUEST(pdu))
-      handle_request(context, session, pdu);
-    else
+    if (COAP_PDU_IS_REQUEST(pdu)) {
+#if COAP_OSCORE_SUPPORT
+      if (!dec_pdu && session->oscore_encryption &&
+          session->type != COAP_SESSION_TYPE_CLIENT) {
+        /*
+         * This request was not OSCORE protected, even if earlier ones on
+         * this session were: it must not pass (or be answered) as protected.
+         */
+        session->oscore_encryption = 0;
+        handle_request(context, session, pdu);
+        session->oscore_encryption = 1;
+      } else
+#endif /* COAP_OSCORE_SUPPORT */
+        handle_request(context, session, pdu);
+    } else
 #endif /* COAP_SERVER_SUPPORT */
 #if COAP_CLIENT_SUPPORT
       if (COAP_PDU_IS_RESPONSE(pdu))
